@@ -574,6 +574,9 @@ func gen(seed uint64, tier string) {
 			fmt.Fprintf(w, "prjn %s %s %s %s\n", hx(n), c, hx(wkts[(3*i+j)%len(wkts)]), hx(wkts[(3*i+j+7)%len(wkts)]))
 		}
 		fmt.Fprintf(w, "prjn %s ext %s -\n", hx(n), hx(wkts[(5*i)%len(wkts)])) // no decoys: a wrong path finds no file
+		// a layer WITHOUT a .prj of its own, and one whose .prj is empty, among decoys: SR() must fail, not pick up a neighbour
+		fmt.Fprintf(w, "prjn %s %s ! %s\n", hx(n), calls[i%len(calls)], hx(wkts[(5*i+1)%len(wkts)]))
+		fmt.Fprintf(w, "prjn %s %s - %s\n", hx(n), calls[(i+1)%len(calls)], hx(wkts[(5*i+2)%len(wkts)]))
 		k := []string{"lcc", "tmerc", "aea", "merc", "eqdc", "geog"}
 		fmt.Fprintf(w, "prjncrs %s %s %s | %s\n", hx(n), calls[i%len(calls)], strings.Join(strings.Fields(crsTokens(r, k[i%6]))[:16], " "),
 			strings.Join(strings.Fields(crsTokens(r, k[(i+1)%6]))[:16], " "))
